@@ -10,3 +10,4 @@ import MiniconfVerif.Props.C04
 #print axioms MiniconfVerif.C04.jsonpath_text_roundtrip
 #print axioms MiniconfVerif.C04.source_key_find_is_model
 #print axioms MiniconfVerif.C04.source_transcode_callbacks_are_model
+#print axioms MiniconfVerif.C04.source_keys_are_model
